@@ -47,30 +47,33 @@ class Ref:
     def m0(self, x1, x2):
         return self.cdf(x2) - self.cdf(x1)
 
-    def _prim1(self, x):
-        """antiderivative of x*pdf(x)"""
+    def _prim_shifted(self, x):
+        """antiderivative of (x - shift)*pdf(x), shift = a (bounded families) resp. mu (Normal): well conditioned
+        for boxes far from the origin"""
         fam = self.spec[0]
         a, b = self.a, self.b
         if fam == "Uniform":
-            x = min(max(x, a), b)
-            return x * x / (2 * (b - a))
+            t = min(max(x, a), b) - a
+            return t * t / (2 * (b - a))
         if fam == "Triangle":
             c = self.spec[1]
             x = min(max(x, a), b)
-            k1 = (b - a) * (c - a)
-            k2 = (b - a) * (b - c)
-            left = lambda t: 2.0 / k1 * (t ** 3 / 3 - a * t * t / 2)
-            right = lambda t: 2.0 / k2 * (b * t * t / 2 - t ** 3 / 3)
+            L, lc = b - a, c - a
+            t = x - a
             if x <= c:
-                return left(x) - left(a)
-            return left(c) - left(a) + right(x) - right(c)
-        mu, sg = self.spec[1], self.spec[2]
+                return 2.0 * t ** 3 / (3.0 * L * lc)
+            # on [c, b]: pdf = 2 (b - x) / (L (b - c));  (x - a) = L - u with u = b - x
+            u, uc = b - x, b - c
+            prim = lambda w: (L * w * w / 2 - w ** 3 / 3) * 2.0 / (L * uc)      # ∫_0^w (L - u) 2u/(L uc) du
+            return 2.0 * lc ** 3 / (3.0 * L * lc) + prim(uc) - prim(u)
+        sg = self.spec[2]
         if math.isinf(x):
-            return 0.0 if x < 0 else mu
-        return mu * self.cdf(x) - sg * sg * float(self.d.pdf(x))
+            return 0.0
+        return -sg * sg * float(self.d.pdf(x))
 
     def m1(self, x1, x2):
-        return self._prim1(x2) - self._prim1(x1)
+        shift = self.spec[1] if self.spec[0] == "Normal" else self.a
+        return shift * self.m0(x1, x2) + self._prim_shifted(x2) - self._prim_shifted(x1)
 
 
 def trap_weights(pts):
@@ -118,8 +121,27 @@ def near(x, y, tol=1e-9, scale=1.0):
 
 # ----------------------------------------------------------------------------------------- generators
 
+def gen_dim_extreme(r, fam):
+    """scale extremes (dyadic): boxes far from the origin (|a|/(b-a) up to 8192, both signs), tiny / huge lengths and
+    standard deviations (2^-20 .. 2^20), far-off means"""
+    sign = r.choice([-1.0, 1.0])
+    if fam in ("Uniform", "Triangle"):
+        L = 2.0 ** r.choice([-20, -10, -3, 0, 4, 10, 20])
+        a = sign * r.choice([0, 3, 100, 1024, 8192]) * L
+        if fam == "Uniform":
+            return {"spec": ["Uniform"], "a": a, "b": a + L, "extreme": True}
+        return {"spec": ["Triangle", a + L * r.randint(1, 15) / 16], "a": a, "b": a + L, "extreme": True}
+    sg = 2.0 ** r.choice([-20, -10, -4, 6, 12, 20])
+    mu = sign * sg * r.choice([0, 3, 100, 1024, 8192])
+    if fam == "NormalInf":
+        return {"spec": ["Normal", mu, sg], "a": -INF, "b": INF, "extreme": True}
+    return {"spec": ["Normal", mu, sg], "a": mu - sg * r.randint(1, 12) / 2, "b": mu + sg * r.randint(1, 12) / 2, "extreme": True}
+
+
 def gen_dim(r, fam=None):
     fam = fam or r.choice(["Uniform", "Triangle", "NormalInf", "NormalBox"])
+    if r.random() < 0.15:
+        return gen_dim_extreme(r, fam)
     if fam == "Uniform":
         a = r.randint(-8, 8) / 4
         b = a + r.randint(1, 24) / 4
@@ -363,13 +385,11 @@ def run_tree_case(ctx, drv, case):
         refd = Ref(dims[jr]["spec"], dims[jr]["a"], dims[jr]["b"])
         for i in range(n - 1):
             if math.isinf(pts[i]) or math.isinf(pts[i + 1]):
-                bracket = bracket and m0s[i] >= 0
-            else:
-                bracket = bracket and pts[i] * m0s[i] <= m1s[i] <= pts[i + 1] * m0s[i]
+                bracket = bracket and m0s[i] >= 0      # the first moment of an infinite end interval is never used
+                continue
+            bracket = bracket and pts[i] * m0s[i] <= m1s[i] <= pts[i + 1] * m0s[i]
             r1 = refd.m1(pts[i], pts[i + 1])
-            sc = abs(r1)
-            if not (math.isinf(pts[i]) or math.isinf(pts[i + 1])):
-                sc = max(sc, max(abs(pts[i]), abs(pts[i + 1])) * abs(m0s[i]))
+            sc = max(abs(r1), max(abs(pts[i]), abs(pts[i + 1])) * abs(m0s[i]))
             if abs(m1s[i] - r1) > 1e-2 * sc + 1e-12:
                 m1_within_quad_tolerance = False
         if not bracket:
@@ -457,13 +477,22 @@ def run_tree_case(ctx, drv, case):
         s = sum(wi)
         mass = refs[d].m0(pts[0], pts[-1])
         detail = {"points": pts, "weights": wi, "sum": s}
+        # bracketing unmet on the float moments (cdf differences of intervals of width ~1e-9 cancel): the code clips
+        # the slightly negative weights, which moves the sum by the clipped amount (w_sum speaks of the UNclipped weights)
+        clipped = 0.0
+        if not strict and n >= 2:
+            segs_ = ";".join("%s:%s:%s" % (fx(pts[i + 1]), frac_str(m0s[i]), frac_str(m1s[i])) for i in range(n - 1))
+            clipped = float(sum(-x for x in parse_vec(drv.ask("raw %s %s" % (fx(pts[0]), segs_))) if x < 0))
+            if clipped > 0:
+                ctx.count("assumption_unmet_clipped_mass")
+        tol_s = 1e-9 + 2 * clipped
         bad_clause = None
         if min(wi) < -1e-12:
             if strict:
                 bad_clause = ("weights-nonneg", "weights are non-negative")
             else:
                 ctx.count("assumption_unmet_negative_weight")
-        if bad_clause is None and abs(s - 1.0) > 1e-9:
+        if bad_clause is None and abs(s - 1.0) > tol_s:
             bad_clause = ("weights-sum", "weights sum to 1")
         if bad_clause is None and dims[d]["spec"][0] == "Uniform" and fin:
             L = dims[d]["b"] - dims[d]["a"]
@@ -472,14 +501,15 @@ def run_tree_case(ctx, drv, case):
             else:
                 si = sum(tw[1:-1])
                 want = [x / si for x in tw[1:-1]]
-            if any(abs(x - y) > 1e-12 for x, y in zip(want, wi)):
+            far = max(abs(pts[0]), abs(pts[-1])) / L          # cancellation in m1 - m0*x1: eps * |x| / (b - a)
+            if any(abs(x - y) > 1e-12 + 4e-15 * far + 2 * clipped for x, y in zip(want, wi)):
                 bad_clause = ("uniform-trap", "uniform: weights = trapezoidal weights / (b-a)")
                 detail["trapezoid_over_length"] = want
         if bad_clause is not None:
             probe = bad_clause[0]
             if explained_shared:
                 probe = "shared-distribution-object"
-            elif bad_clause[0] == "weights-sum" and boundary and abs(s - mass) <= 1e-9 and abs(mass - 1.0) > 1e-9 \
+            elif bad_clause[0] == "weights-sum" and boundary and abs(s - mass) <= tol_s and abs(mass - 1.0) > tol_s \
                     and min(wi) >= -1e-12:
                 probe = "mass-not-one"
                 detail["mass_of_box"] = mass
@@ -491,7 +521,7 @@ def run_tree_case(ctx, drv, case):
 def gen_tree_case(ctx):
     r = ctx.rng
     thorough = ctx.tier == "thorough"
-    ndim = r.choice([1, 1, 2] if not thorough else [1, 2, 2])
+    ndim = r.choice([1, 1, 2, 2, 3] if not thorough else [1, 2, 2, 3, 4])
     dims = gen_dims(r, ndim)
     boundary = r.random() < 0.5
     form = "list"
@@ -499,10 +529,17 @@ def gen_tree_case(ctx):
         form = "str" if dims[0]["spec"] == ["Uniform"] and r.random() < 0.5 else "single"
     splits = []
     for d in range(ndim):
-        n = r.randint(3, 30)
+        n = r.randint(3, 30 if ndim <= 2 else 14)
         if r.random() < 0.06:
             n = r.choice([2, 3, 4])
         mode = r.random()
+        dm = dims[d]
+        if dm["spec"][0] == "Normal" and math.isinf(dm["b"]) and not dm.get("extreme") and dm["spec"][2] <= 1.0 and r.random() < 0.12:
+            # deep into the upper tail: after ~53 one-sided splits the cdf saturates (ppf returns inf, fallbacks);
+            # |end point| stays < 16 so that the fallback's 1e-14 is representable
+            n, mode = r.randint(56, 66), 0.99
+            splits.append([k for k in range(n - 2)])
+            continue
         sp = []
         for k in range(n - 2):
             if mode < 0.5:
@@ -824,6 +861,100 @@ def gen_options_case(ctx):
     return {"kind": "options", "dims": dims, "boundary": boundary, "modified_basis": modified, "form": form, "splits": splits}
 
 
+# ----------------------------------------------------------------------------------------- case kind 2e: sibling objects
+
+def run_sibling_case(ctx, drv, case):
+    """2-3 UncertaintyQuantification operations + weighted grids with DIFFERENT distributions on the SAME box and the same
+    grid points (equal cache keys) alive at once; their work is interleaved (process history = case['steps']) and every
+    observation is (1) checked against the configured distribution (scipy reference) and (2) identical whenever repeated.
+    boundary=True: by w_sum the weights of the sub-grid [x_i..x_j] sum to cdf(x_j) - cdf(x_i) of the configured input."""
+    import numpy as np
+    from sparseSpACE.Grid import GlobalTrapezoidalGridWeighted
+    from sparseSpACE.Function import FunctionCustom
+    a, b, specs = case["a"], case["b"], case["members"]
+    pts = [a, b]
+    for i in case["splits"]:
+        i = i % (len(pts) - 1)
+        pts.insert(i + 1, 0.5 * (pts[i] + pts[i + 1]))
+    refs = [Ref(sp, a, b) for sp in specs]
+    members = {}
+    seen = {}
+    tags = {"members": "+".join(sp[0] for sp in specs), "boundary": True}
+
+    def member(m):
+        if m not in members:       # built lazily: later members are created after earlier ones have worked
+            f = FunctionCustom(lambda x: [0.0], output_dim=1)
+            op, aa, bb = make_op([{"spec": specs[m], "a": a, "b": b}], f, "list")
+            members[m] = (op, GlobalTrapezoidalGridWeighted(aa, bb, op, boundary=True))
+        return members[m]
+
+    for idx, (m, action, arg) in enumerate(case["steps"]):
+        op, grid = member(m)
+        bad = None
+        with quiet():
+            if action == "w":
+                grid.set_grid([pts], [[0] * len(pts)])
+                obs = [float(x) for x in grid.weights[0]]
+                mass = refs[m].m0(a, b)
+                if abs(sum(obs) - mass) > 1e-9 or min(obs) < -1e-12:
+                    bad = {"clause": "weights are non-negative and sum to the probability of the box under the configured input",
+                           "weights": obs, "sum": sum(obs), "probability": mass}
+                elif specs[m][0] == "Uniform" and any(abs(x - y / (b - a)) > 1e-12 for x, y in zip(obs, trap_weights(pts))):
+                    bad = {"clause": "uniform: weights = trapezoidal weights / (b-a)", "weights": obs}
+            elif action == "wsub":
+                i, j = arg
+                sub = pts[i:j + 1]
+                obs = [float(x) for x in grid.compute_1D_quad_weights(sub, a, b, 0, grid_levels_1D=[0] * len(sub))]
+                want = refs[m].m0(sub[0], sub[-1])
+                if abs(sum(obs) - want) > 1e-9:
+                    bad = {"clause": "weights of the sub-grid sum to its probability under the configured input",
+                           "sub_grid": sub, "weights": obs, "sum": sum(obs), "probability": want}
+            else:
+                x1, x2 = pts[arg], pts[arg + 1]
+                obs = float(grid.get_mid_point(x1, x2, 0))
+                pl, pr = refs[m].cdf(obs) - refs[m].cdf(x1), refs[m].cdf(x2) - refs[m].cdf(obs)
+                if not (x1 < obs < x2) or abs(pl - pr) > 1e-6:
+                    bad = {"clause": "midpoint strictly inside, splits the probability of the configured input equally",
+                           "a": x1, "b": x2, "mid": obs, "P_left": pl, "P_right": pr}
+        key = (m, action, str(arg))
+        if bad is None and key in seen and seen[key] != obs:
+            bad = {"clause": "the same request to the same object gives the same answer after a sibling has worked",
+                   "first": seen[key], "now": obs}
+        seen.setdefault(key, obs)
+        ctx.count("sibling_steps")
+        if bad is not None:
+            bad.update({"step_index": idx, "step": [m, action, arg], "member_spec": specs[m], "points": pts})
+            ctx.violation("sibling-interference", tags, case, bad)
+            return False
+    return True
+
+
+def gen_sibling_case(ctx):
+    r = ctx.rng
+    a = r.randint(-8, 8) / 4
+    b = a + r.randint(2, 24) / 4
+    pool = [["Uniform"], ["Triangle", a + (b - a) * r.randint(1, 7) / 16], ["Triangle", a + (b - a) * r.randint(9, 15) / 16],
+            ["Normal", a + (b - a) * r.randint(0, 8) / 8, (b - a) * r.choice([0.125, 0.25, 1.0])],
+            ["Normal", a + (b - a) * r.randint(0, 8) / 8, (b - a) * r.choice([0.5, 2.0])]]
+    specs = r.sample(pool, r.choice([2, 2, 3]))
+    n = r.randint(3, 9)
+    splits = [r.randrange(k + 1) for k in range(n - 2)]
+    steps = []
+    for _ in range(r.randint(6, 14)):
+        m = r.randrange(len(specs))
+        x = r.random()
+        if x < 0.4:
+            steps.append([m, "w", None])
+        elif x < 0.7:
+            i = r.randrange(n - 1)
+            steps.append([m, "wsub", [i, r.randint(i + 1, n - 1)]])
+        else:
+            steps.append([m, "mid", r.randrange(n - 1)])
+    # every request is repeated by a sibling and later again by the first asker
+    steps = steps + [[(m + 1) % len(specs), ac, ar] for m, ac, ar in steps[:4]] + [list(x) for x in steps[:4]]
+    return {"kind": "sibling", "a": a, "b": b, "members": specs, "splits": splits, "steps": steps}
+
+
 # ----------------------------------------------------------------------------------------- case kind 3: moments
 
 def base_function(fid, thr, dims=None):
@@ -891,6 +1022,24 @@ def build_model(ret, g, c, e, k):
     raise ValueError(ret)
 
 
+def bracket_status(D, refd, pts):
+    """(bracketing hypothesis of w_nonneg holds on the implementation's own interval moments,
+        every first moment is within quad's advertised 1e-2 of the closed-form reference)"""
+    bracket, within = True, True
+    with quiet():
+        for i in range(len(pts) - 1):
+            x1, x2 = pts[i], pts[i + 1]
+            m0, m1 = float(D.get_zeroth_moment(x1, x2)), float(D.get_first_moment(x1, x2))
+            if math.isinf(x1) or math.isinf(x2):
+                bracket = bracket and m0 >= 0      # the first moment of an infinite end interval is computed but never used
+                continue
+            bracket = bracket and x1 * m0 <= m1 <= x2 * m0
+            sc = max(abs(refd.m1(x1, x2)), max(abs(x1), abs(x2)) * abs(m0))
+            if abs(m1 - refd.m1(x1, x2)) > 1e-2 * sc + 1e-12:
+                within = False
+    return bracket, within
+
+
 def run_moments_case(ctx, drv, case):
     """case = {kind:'moments', dims, boundary, form, fid, thr, c, e, k, max_evaluations, lmax, ret, setup}"""
     import numpy as np
@@ -918,9 +1067,11 @@ def run_moments_case(ctx, drv, case):
 
     def viol(probe, detail):
         nonlocal ok
+        detail = dict(detail, stage=st["label"]) if isinstance(detail, dict) else detail
         if ctx.violation(probe, tags, case, detail):
             ok = False
 
+    st = {"ci": None, "storage": None, "label": "first run"}
     ret = case.get("ret", "list")
     ncomp = 1 if ret.startswith("s_") else 3
 
@@ -945,158 +1096,254 @@ def run_moments_case(ctx, drv, case):
         op.update_function(op.get_expectation_variance_Function())
     else:
         op.set_expectation_variance_Function()
-    try:
+    errcalc = ErrorCalculatorSingleDimVolumeGuided
+    use_site = []          # (coordinates per dimension, weights per dimension) at every set_grid of the operation's grid
+
+    def run_step(kind):
+        """first: performSpatiallyAdaptiv; continue: continue_adaptive_refinement with a larger limit on the same
+        instance; rerun: a second SpatiallyAdaptiveSingleDimensions2 on the SAME operation and grid objects"""
         with quiet():
-            ci = SpatiallyAdaptiveSingleDimensions2(a, b, operation=op, norm=2, use_volume_weighting=True,
-                                                    grid_surplusses=op.get_grid())
-            storage = {} if case.get("storage") else None
-            ci.performSpatiallyAdaptiv(1, case["lmax"], ErrorCalculatorSingleDimVolumeGuided(), tol=0,
-                                       max_evaluations=case["max_evaluations"], print_output=False, solutions_storage=storage)
-            result_before = [float(x) for x in op.get_result()]
-            storage_before = {n: [float(x) for x in v] for n, v in storage.items()} if storage is not None else None
-            E, V = op.calculate_expectation_and_variance(ci)
-            E, V = [float(x) for x in E], [float(x) for x in V]
-            # object history: the same operation object is asked again (and again); its stored result must not move
-            history = [("query 1", E, V, [float(x) for x in op.get_result()])]
-            for q in range(case.get("repeat", 0)):
-                if q == 1:
-                    En_, Vn_ = op.calculate_expectation_and_variance(ci, use_combiinstance_solution=False)  # interleaved
-                Eq, Vq = op.calculate_expectation_and_variance(ci)
-                history.append(("query %d" % (q + 2), [float(x) for x in Eq], [float(x) for x in Vq],
-                                [float(x) for x in op.get_result()]))
-            multi = []
-            if storage is not None:
-                for q in range(2):
-                    multi.append([(int(n), [float(x) for x in e_], [float(x) for x in v_])
-                                  for n, e_, v_ in op.calculate_multiple_expectation_and_variance(storage)])
-                storage_after = {n: [float(x) for x in v] for n, v in storage.items()}
-                Es, Vs = op.calculate_expectation_and_variance(ci)
-                history.append(("query after the multi-solution queries", [float(x) for x in Es], [float(x) for x in Vs],
-                                [float(x) for x in op.get_result()]))
-            pts, W = ci.get_points_and_weights()
-            En, Vn = op.calculate_expectation_and_variance(ci, use_combiinstance_solution=False)
-            En, Vn = [float(x) for x in En], [float(x) for x in Vn]
-    except Exception as ex:  # noqa: BLE001
-        import traceback
-        viol("shared-distribution-object" if anyshared and "negative weight" in str(ex) else "moments-exception",
-             {"exception": repr(ex)[:300], "trace": traceback.format_exc()[-800:]})
-        return False
-    # ---- oracle: every query of the same refined grid gives the same E and Var and leaves the stored moments alone
-    same = lambda u, v: len(u) == len(v) and all(x == y or (math.isnan(x) and math.isnan(y)) for x, y in zip(u, v))
-    ctx.count("moments_repeated_queries", len(history) - 1)
-    bad_hist = [h[0] for h in history if not (same(h[1], E) and same(h[2], V) and same(h[3], result_before))]
-    if storage is not None:
-        ctx.count("moments_storage_route")
-        if not all(same(storage_after[n], storage_before[n]) for n in storage_before) or multi[0] != multi[1]:
-            bad_hist.append("calculate_multiple_expectation_and_variance twice on one solutions_storage")
-        elif multi[0] and storage_before and not (same(multi[0][-1][1], E) and same(multi[0][-1][2], V)):
-            bad_hist.append("last stored solution vs direct query")
-    if bad_hist:
-        viol("moments-query-not-repeatable",
-             {"clause": "E/Var laws hold on every query of one refined grid; a query does not change the combined moments",
-              "differs": bad_hist, "get_result_before": result_before,
-              "history": [{"at": h[0], "E": h[1], "V": h[2], "get_result": h[3]} for h in history][:4],
-              "multi": [m[-1:] for m in multi]})
-        return False
-    W = [float(x) for x in W]
-    if any(not math.isfinite(x) for x in W):
-        viol("shared-distribution-object" if anyshared else "weights-nonfinite",
-             {"clause": "weights sum to 1", "E": E, "V": V, "nonfinite_weights": sum(1 for x in W if not math.isfinite(x))})
+            if kind in ("first", "rerun"):
+                st["ci"] = SpatiallyAdaptiveSingleDimensions2(a, b, operation=op, norm=2, use_volume_weighting=True,
+                                                              grid_surplusses=op.get_grid())
+                st["storage"] = {} if case.get("storage") else None
+                nev = case["max_evaluations"] if kind == "first" else max(10, case["max_evaluations"] // 2)
+                st["ci"].performSpatiallyAdaptiv(1, case["lmax"], errcalc(), tol=0, max_evaluations=nev, print_output=False,
+                                                 solutions_storage=st["storage"])
+            else:
+                st["ci"].continue_adaptive_refinement(tol=0, max_evaluations=case["max_evaluations"] + 15)
+
+    def observe(label):
+        nonlocal ok
+        ci, storage = st["ci"], st["storage"]
+        try:
+            with quiet():
+                result_before = [float(x) for x in op.get_result()]
+                storage_before = {n: [float(x) for x in v] for n, v in storage.items()} if storage is not None else None
+                E, V = op.calculate_expectation_and_variance(ci)
+                E, V = [float(x) for x in E], [float(x) for x in V]
+                # object history: the same operation object is asked again (and again); its stored result must not move
+                history = [("query 1", E, V, [float(x) for x in op.get_result()])]
+                for q in range(case.get("repeat", 0)):
+                    if q == 1:
+                        En_, Vn_ = op.calculate_expectation_and_variance(ci, use_combiinstance_solution=False)  # interleaved
+                    Eq, Vq = op.calculate_expectation_and_variance(ci)
+                    history.append(("query %d" % (q + 2), [float(x) for x in Eq], [float(x) for x in Vq],
+                                    [float(x) for x in op.get_result()]))
+                multi = []
+                if storage is not None:
+                    for q in range(2):
+                        multi.append([(int(n), [float(x) for x in e_], [float(x) for x in v_])
+                                      for n, e_, v_ in op.calculate_multiple_expectation_and_variance(storage)])
+                    storage_after = {n: [float(x) for x in v] for n, v in storage.items()}
+                    Es, Vs = op.calculate_expectation_and_variance(ci)
+                    history.append(("query after the multi-solution queries", [float(x) for x in Es], [float(x) for x in Vs],
+                                    [float(x) for x in op.get_result()]))
+                # the operation's own stored result fed back into the static entry point
+                res = [float(x) for x in op.get_result()]
+                Ef, Vf = op.moments_to_expectation_variance(list(res[:len(res) // 2]), list(res[len(res) // 2:]))
+                history.append(("stored result fed back to moments_to_expectation_variance", [float(x) for x in Ef],
+                                [float(x) for x in Vf], [float(x) for x in op.get_result()]))
+                pts, W = ci.get_points_and_weights()
+                En, Vn = op.calculate_expectation_and_variance(ci, use_combiinstance_solution=False)
+                En, Vn = [float(x) for x in En], [float(x) for x in Vn]
+        except Exception as ex:  # noqa: BLE001
+            import traceback
+            viol("shared-distribution-object" if anyshared and "negative weight" in str(ex) else "moments-exception",
+                 {"exception": repr(ex)[:300], "trace": traceback.format_exc()[-800:]})
+            return False
+        # ---- oracle: every query of the same refined grid gives the same E and Var and leaves the stored moments alone
+        same = lambda u, v: len(u) == len(v) and all(x == y or (math.isnan(x) and math.isnan(y)) for x, y in zip(u, v))
+        ctx.count("moments_repeated_queries", len(history) - 1)
+        bad_hist = [h[0] for h in history if not (same(h[1], E) and same(h[2], V) and same(h[3], result_before))]
+        if storage is not None:
+            ctx.count("moments_storage_route")
+            if not all(same(storage_after[n], storage_before[n]) for n in storage_before) or multi[0] != multi[1]:
+                bad_hist.append("calculate_multiple_expectation_and_variance twice on one solutions_storage")
+            elif multi[0] and storage_before and not (same(multi[0][-1][1], E) and same(multi[0][-1][2], V)):
+                bad_hist.append("last stored solution vs direct query")
+        if bad_hist:
+            viol("moments-query-not-repeatable",
+                 {"clause": "E/Var laws hold on every query of one refined grid; a query does not change the combined moments",
+                  "differs": bad_hist, "get_result_before": result_before,
+                  "history": [{"at": h[0], "E": h[1], "V": h[2], "get_result": h[3]} for h in history][:4],
+                  "multi": [m[-1:] for m in multi]})
+            return False
+        W = [float(x) for x in W]
+        if any(not math.isfinite(x) for x in W):
+            viol("shared-distribution-object" if anyshared else "weights-nonfinite",
+                 {"clause": "weights sum to 1", "E": E, "V": V, "nonfinite_weights": sum(1 for x in W if not math.isfinite(x))})
+            return ok
+        vals = [fvecfun(tuple(float(t) for t in p)) for p in pts]
+        cols = [[float(v[j]) for v in vals] for j in range(ncomp)]
+        ctx.count("moments_nodes", len(W))
+        if min(W) < 0:
+            ctx.count("moments_rule_has_negative_weights")
+        S = math.fsum(W)
+        absW = math.fsum(abs(x) for x in W)
+        sc1 = [math.fsum(abs(w * v) for w, v in zip(W, col)) for col in cols]
+        sc2 = [math.fsum(abs(w) * v * v for w, v in zip(W, col)) + s1 * s1 for col, s1 in zip(cols, sc1)]
+        # is the sign-repair branch of moments_to_expectation_variance exercised?  (exact raw value on the nodes)
+        for j, col in enumerate(cols):
+            e1 = sum(Fraction(w) * Fraction(v) for w, v in zip(W, col)) if all(math.isfinite(v) for v in col) else None
+            if e1 is not None:
+                raw = sum(Fraction(w) * Fraction(v) * Fraction(v) for w, v in zip(W, col)) - e1 * e1
+                if raw < 0:
+                    ctx.count("moments_raw_variance_negative")
+                if raw < -Fraction(1, 10 ** 10):
+                    ctx.count("moments_raw_variance_below_-1e-10" + ("_const" if j == 2 else ""))
+        # ---- correspondence: bookkeeping of calculate_expectation_and_variance
+        if any(math.isnan(x) or math.isinf(x) for col in cols for x in col):
+            ctx.count("moments_nonfinite_model_value")
+            return ok
+        rm = drv.ask("ev %s %s" % (fvec(W), "|".join(fvec(col) for col in cols)))
+        try:
+            es, vs = rm[2:].split(" V ")
+            Em, Vm = [float(x) for x in parse_vec(es)], [float(x) for x in parse_vec(vs)]
+            for nm, Ei, Vi in (("solution", E, V), ("nodes", En, Vn)):
+                if any(not near(x, y, 1e-9, s) for x, y, s in zip(Ei, Em, sc1)) or \
+                        any(not near(x, y, 1e-9, s) for x, y, s in zip(Vi, Vm, sc2)) or len(Ei) != ncomp or len(Vi) != ncomp:
+                    corr("expectation-variance-" + nm, {"E": Ei, "V": Vi}, rm[:300])
+        except Exception:  # noqa: BLE001
+            corr("expectation-variance", {"E": E, "V": V}, rm[:300])
+        # ---- correspondence: the combined rule = Σ coefficient × tensor product of the 1-D weights
+        comps = []
+        allw = []
+        with quiet():
+            for cg in ci.scheme:
+                coords, levels, _ = ci.get_point_coord_for_each_dim(cg.levelvector)
+                grid.set_grid(coords, levels)
+                w1d = [[float(x) for x in grid.weights[d]] for d in range(ndim)]
+                comps.append((float(cg.coefficient), w1d))
+        if sum(len(w) for _, ws in comps for w in ws) <= 400:
+            parts = []
+            for coef, w1d in comps:
+                rt = drv.ask("tensor " + "|".join(fvec(w) for w in w1d))
+                parts.append("%s:%s" % (frac_str(coef), fvec([float(x) for x in parse_vec(rt)])))
+            rc = drv.ask("comb " + ";".join(parts))
+            wm = sorted(float(x) for x in parse_vec(rc))
+            wi = sorted(W)
+            if len(wm) != len(wi) or any(not near(x, y, 1e-12) for x, y in zip(wm, wi)):
+                corr("combined-weights", wi[:20], wm[:20])
+        # ---- oracle: the property clauses on the implementation's outputs
+        law_bad = []
+        if any(v < 0 for v in V) or len(E) != ncomp or len(V) != ncomp:
+            viol("var-negative", {"V": V, "E": E})
+        if ncomp == 1:
+            # scalar model: no transformed component; E and Var are tied to the independent Σ W f, Σ W f² above
+            if abs(S - 1.0) > 1e-9 and not (boundary and "finite-box" in sups):
+                viol("weights-sum", {"E": E, "V": V, "sum_of_combined_weights": S})
+            return ok
+        if not near(E[1], c * E[0] + e, 1e-9, abs(c) * sc1[0] + abs(e) * absW):
+            law_bad.append("E[c f + e] = c E[f] + e")
+        if not near(V[1], c * c * V[0], 1e-9, c * c * sc2[0] + sc2[1]):
+            law_bad.append("Var[c f + e] = c^2 Var[f]")
+        if not near(E[2], k, 1e-9, abs(k) * absW):
+            law_bad.append("E[const] = const")
+        if abs(V[2]) > 1e-12 * max(1.0, k * k * absW * absW):
+            law_bad.append("Var[const] = 0")
+        detail = {"E": E, "V": V, "c": c, "e": e, "k": k, "sum_of_combined_weights": S, "failed": law_bad}
+        if law_bad or abs(S - 1.0) > 1e-9:
+            # affine_moments_mass: are the deviations exactly those of a rule of total mass S ?
+            gen_ok = near(E[1], c * E[0] + e * S, 1e-9, abs(c) * sc1[0] + abs(e) * absW) and near(E[2], k * S, 1e-9, abs(k) * absW)
+            mass_decl = mass_eff = 1.0
+            if boundary:
+                for d in range(ndim):
+                    mass_decl *= Ref(dims[d]["spec"], dims[d]["a"], dims[d]["b"]).m0(dims[d]["a"], dims[d]["b"])
+                    j = impl_reuse[d]
+                    mass_eff *= Ref(dims[j]["spec"], dims[j]["a"], dims[j]["b"]).m0(dims[d]["a"], dims[d]["b"])
+            detail["mass_of_box"] = mass_decl
+            if not gen_ok or abs(S - 1.0) <= 1e-9:
+                viol("moments-law", detail)
+            elif abs(S - mass_decl) <= 1e-9:
+                viol("mass-not-one", detail)
+            elif anyshared and abs(S - mass_eff) <= 1e-9:
+                viol("shared-distribution-object", detail)
+            else:
+                viol("weights-sum", detail)
         return ok
-    vals = [fvecfun(tuple(float(t) for t in p)) for p in pts]
-    cols = [[float(v[j]) for v in vals] for j in range(ncomp)]
-    ctx.count("moments_nodes", len(W))
-    if min(W) < 0:
-        ctx.count("moments_rule_has_negative_weights")
-    S = math.fsum(W)
-    absW = math.fsum(abs(x) for x in W)
-    sc1 = [math.fsum(abs(w * v) for w, v in zip(W, col)) for col in cols]
-    sc2 = [math.fsum(abs(w) * v * v for w, v in zip(W, col)) + s1 * s1 for col, s1 in zip(cols, sc1)]
-    # is the sign-repair branch of moments_to_expectation_variance exercised?  (exact raw value on the nodes)
-    for j, col in enumerate(cols):
-        e1 = sum(Fraction(w) * Fraction(v) for w, v in zip(W, col)) if all(math.isfinite(v) for v in col) else None
-        if e1 is not None:
-            raw = sum(Fraction(w) * Fraction(v) * Fraction(v) for w, v in zip(W, col)) - e1 * e1
-            if raw < 0:
-                ctx.count("moments_raw_variance_negative")
-            if raw < -Fraction(1, 10 ** 10):
-                ctx.count("moments_raw_variance_below_-1e-10" + ("_const" if j == 2 else ""))
-    # ---- correspondence: bookkeeping of calculate_expectation_and_variance
-    if any(math.isnan(x) or math.isinf(x) for col in cols for x in col):
-        ctx.count("moments_nonfinite_model_value")
-        return ok
-    rm = drv.ask("ev %s %s" % (fvec(W), "|".join(fvec(col) for col in cols)))
-    try:
-        es, vs = rm[2:].split(" V ")
-        Em, Vm = [float(x) for x in parse_vec(es)], [float(x) for x in parse_vec(vs)]
-        for nm, Ei, Vi in (("solution", E, V), ("nodes", En, Vn)):
-            if any(not near(x, y, 1e-9, s) for x, y, s in zip(Ei, Em, sc1)) or \
-                    any(not near(x, y, 1e-9, s) for x, y, s in zip(Vi, Vm, sc2)) or len(Ei) != ncomp or len(Vi) != ncomp:
-                corr("expectation-variance-" + nm, {"E": Ei, "V": Vi}, rm[:300])
-    except Exception:  # noqa: BLE001
-        corr("expectation-variance", {"E": E, "V": V}, rm[:300])
-    # ---- correspondence: the combined rule = Σ coefficient × tensor product of the 1-D weights
-    comps = []
-    allw = []
-    with quiet():
-        for cg in ci.scheme:
-            coords, levels, _ = ci.get_point_coord_for_each_dim(cg.levelvector)
-            grid.set_grid(coords, levels)
-            w1d = [[float(x) for x in grid.weights[d]] for d in range(ndim)]
-            comps.append((float(cg.coefficient), w1d))
-    if sum(len(w) for _, ws in comps for w in ws) <= 400:
-        parts = []
-        for coef, w1d in comps:
-            rt = drv.ask("tensor " + "|".join(fvec(w) for w in w1d))
-            parts.append("%s:%s" % (frac_str(coef), fvec([float(x) for x in parse_vec(rt)])))
-        rc = drv.ask("comb " + ";".join(parts))
-        wm = sorted(float(x) for x in parse_vec(rc))
-        wi = sorted(W)
-        if len(wm) != len(wi) or any(not near(x, y, 1e-12) for x, y in zip(wm, wi)):
-            corr("combined-weights", wi[:20], wm[:20])
-    # ---- oracle: the property clauses on the implementation's outputs
-    law_bad = []
-    if any(v < 0 for v in V) or len(E) != ncomp or len(V) != ncomp:
-        viol("var-negative", {"V": V, "E": E})
-    if ncomp == 1:
-        # scalar model: no transformed component; E and Var are tied to the independent Σ W f, Σ W f² above
-        if abs(S - 1.0) > 1e-9 and not (boundary and "finite-box" in sups):
-            viol("weights-sum", {"E": E, "V": V, "sum_of_combined_weights": S})
-        return ok
-    if not near(E[1], c * E[0] + e, 1e-9, abs(c) * sc1[0] + abs(e) * absW):
-        law_bad.append("E[c f + e] = c E[f] + e")
-    if not near(V[1], c * c * V[0], 1e-9, c * c * sc2[0] + sc2[1]):
-        law_bad.append("Var[c f + e] = c^2 Var[f]")
-    if not near(E[2], k, 1e-9, abs(k) * absW):
-        law_bad.append("E[const] = const")
-    if abs(V[2]) > 1e-12 * max(1.0, k * k * absW * absW):
-        law_bad.append("Var[const] = 0")
-    detail = {"E": E, "V": V, "c": c, "e": e, "k": k, "sum_of_combined_weights": S, "failed": law_bad}
-    if law_bad or abs(S - 1.0) > 1e-9:
-        # affine_moments_mass: are the deviations exactly those of a rule of total mass S ?
-        gen_ok = near(E[1], c * E[0] + e * S, 1e-9, abs(c) * sc1[0] + abs(e) * absW) and near(E[2], k * S, 1e-9, abs(k) * absW)
-        mass_decl = mass_eff = 1.0
-        if boundary:
+
+    # ---- use-site observation: the weights the integration really uses (recorded when grid.integrate is entered)
+    orig_integrate = grid.integrate
+
+    def rec_integrate(f_, levelvec, start, end_):
+        if len(use_site) < 60:
+            use_site.append(([[float(x) for x in p] for p in grid.coordinate_array_with_boundary],
+                             [[float(x) for x in w] for w in grid.weights]))
+        return orig_integrate(f_, levelvec, start, end_)
+    grid.integrate = rec_integrate
+
+    last_grid = []
+    orig_set_grid = grid.set_grid
+
+    def rec_set_grid(points, levels):
+        last_grid[:] = [[float(x) for x in p] for p in points]
+        return orig_set_grid(points, levels)
+    grid.set_grid = rec_set_grid
+
+    def guarded(kind):
+        try:
+            run_step(kind)
+            return True
+        except Exception as ex:  # noqa: BLE001
+            import traceback
+            if isinstance(ex, AssertionError) and "negative weight" in str(ex) and not anyshared and len(last_grid) == ndim:
+                # the code's own assertion on inexact first moments: an unmet assumption (bracketing fails on the grid the
+                # run had reached while every first moment is as accurate as quad(epsrel=1e-2) promises), not a violation
+                st_ = [bracket_status(op.distributions[d], Ref(dims[d]["spec"], dims[d]["a"], dims[d]["b"]), last_grid[d])
+                       for d in range(ndim)]
+                if any(not br for br, _ in st_) and all(wi_ for _, wi_ in st_):
+                    ctx.count("assumption_unmet_negative_weight_assert_in_run")
+                    return False
+            viol("shared-distribution-object" if anyshared and "negative weight" in str(ex) else "moments-exception",
+                 {"exception": repr(ex)[:300], "step": kind, "trace": traceback.format_exc()[-800:]})
+            return False
+
+    def check_use_site():
+        """every weight vector in use equals the one the static route computes for the points in use"""
+        for coords, used in use_site:
             for d in range(ndim):
-                mass_decl *= Ref(dims[d]["spec"], dims[d]["a"], dims[d]["b"]).m0(dims[d]["a"], dims[d]["b"])
-                j = impl_reuse[d]
-                mass_eff *= Ref(dims[j]["spec"], dims[j]["a"], dims[j]["b"]).m0(dims[d]["a"], dims[d]["b"])
-        detail["mass_of_box"] = mass_decl
-        if not gen_ok or abs(S - 1.0) <= 1e-9:
-            viol("moments-law", detail)
-        elif abs(S - mass_decl) <= 1e-9:
-            viol("mass-not-one", detail)
-        elif anyshared and abs(S - mass_eff) <= 1e-9:
-            viol("shared-distribution-object", detail)
-        else:
-            viol("weights-sum", detail)
+                try:
+                    with quiet():
+                        fresh = [float(x) for x in GlobalTrapezoidalGridWeighted.compute_weights(
+                            coords[d], a[d], b[d], op.distributions[d], boundary, False)]
+                except Exception:  # noqa: BLE001
+                    continue
+                fresh = fresh if boundary or len(coords[d]) == 1 else fresh[1:-1]
+                if len(fresh) != len(used[d]) or any(abs(x - y) > 1e-14 for x, y in zip(fresh, used[d])):
+                    viol("use-site-weights", {"clause": "the weights used by the integration are the weights of the grid in use",
+                                              "dim_index": d, "points": coords[d], "used": used[d], "static_route": fresh})
+                    return False
+        ctx.count("moments_use_site_records", len(use_site))
+        return True
+
+    toggle, second = case.get("toggle"), case.get("second")
+    if toggle == "deactivate_caching":
+        f.deactivate_caching()
+    if not guarded("first") or not observe("first run") or not ok:
+        return ok
+    if not check_use_site():
+        return ok
+    if toggle == "reset_dictionary":
+        # rarely used public toggle in the middle of the sequence: the value cache is dropped, the next queries re-evaluate
+        f.reset_dictionary()
+        ctx.count("moments_toggle_reset_dictionary")
+        if not observe("after reset_dictionary") or not ok:
+            return ok
+    if second in ("continue", "rerun"):
+        ctx.count("moments_second_" + second)
+        del use_site[:]
+        st["label"] = second
+        if not guarded(second) or not observe("after " + second) or not ok:
+            return ok
+        check_use_site()
     return ok
 
 
 def gen_moments_case(ctx):
     r = ctx.rng
     thorough = ctx.tier == "thorough"
-    ndim = r.choice([1, 2, 2] if not thorough else [1, 2, 2, 2, 3])
+    ndim = r.choice([1, 2, 2, 2, 3] if not thorough else [1, 2, 2, 3, 3])
     dims = gen_dims(r, ndim)
     boundary = r.random() < 0.5
     infinite = any(math.isinf(dm["a"]) or math.isinf(dm["b"]) for dm in dims)
@@ -1115,20 +1362,36 @@ def gen_moments_case(ctx):
             "ret": r.choice(["list", "list", "tuple", "ndarray", "ndarray", "class_ndarray", "concat",
                              "s_float", "s_npfloat", "s_list", "s_ndarray"]),
             "setup": r.choice(["evf", "evf", "moments12", "update"]),
-            "repeat": r.choice([1, 2, 2, 3]), "storage": r.random() < 0.4}
+            "repeat": r.choice([1, 2, 2, 3]), "storage": r.random() < 0.4,
+            "second": r.choice([None, None, "continue", "rerun"]),
+            "toggle": r.choice([None, None, None, "reset_dictionary", "deactivate_caching"])}
 
 
 # ----------------------------------------------------------------------------------------- entry points
 
-RUNNERS = {"tree": run_tree_case, "synthmid": run_synth_mid, "synthw": run_synth_w, "synthmom": run_synth_mom, "options": run_options_case, "moments": run_moments_case}
+RUNNERS = {"tree": run_tree_case, "synthmid": run_synth_mid, "synthw": run_synth_w, "synthmom": run_synth_mom, "options": run_options_case, "sibling": run_sibling_case, "moments": run_moments_case}
 
 
 def run_case(ctx, drv, case):
     try:
         return RUNNERS[case["kind"]](ctx, drv, case)
     except Exception:  # noqa: BLE001
+        import os
+        import sys
         import traceback
-        ctx.corr_break("C15/harness-exception", case, traceback.format_exc()[-1500:])
+        import common
+        frames = traceback.extract_tb(sys.exc_info()[2])
+        repo = os.path.realpath(common.REPO)
+        in_impl = [fr for fr in frames if os.path.realpath(fr.filename).startswith(repo + os.sep)]
+        if in_impl:
+            # raised inside (or below) the implementation on a generated, valid input: a violation with a replayable case
+            fr = in_impl[-1]
+            ctx.violation("implementation-exception", {"kind": case["kind"]}, case,
+                          {"clause": "the property promises a value for this input",
+                           "where": "%s:%d %s" % (os.path.relpath(fr.filename, repo), fr.lineno, fr.name),
+                           "trace": traceback.format_exc()[-1500:]})
+        else:
+            ctx.corr_break("C15/harness-exception", case, traceback.format_exc()[-1500:])
         return False
 
 
@@ -1151,11 +1414,13 @@ def run(ctx):
                                    "cdf/ppf of chaospy and scipy.stats satisfy the hypotheses of mid_halves (checked per split "
                                    "with an independent scipy cdf at 1e-6)"]
     drv = ctx.driver("drv_c15")
+    import globaltrap_gen
+    globaltrap_gen.run(ctx)      # translator tie of GlobalTrapezoidalGrid.compute_weights (see globaltrap_gen.py); tie only
     for line in ("w X 0 -", "w B 0 1:2", "mid 0 1 0 1", "ev 1,2 1", "prep Q", "unimom 1 1 0 1", "", "tensor a"):
         if drv.ask(line) != "bad-op":
             ctx.corr_break("C15/malformed-line", {"line": line}, "driver accepted a malformed line")
         ctx.count("malformed_lines")
-    n_tree, n_synth, n_mom = (700, 500, 170) if not thorough else (6000, 3000, 1200)
+    n_tree, n_synth, n_mom = (600, 500, 150) if not thorough else (6000, 3000, 1200)
     b_tree, b_synth, b_mom = (50, 55, 100) if not thorough else (290, 320, 590)
 
     def phase(kind, gen, n, budget):
@@ -1179,7 +1444,8 @@ def run(ctx):
 
     if phase("tree", gen_tree_case, n_tree, b_tree) and phase("synthmid", gen_synth_mid, n_synth, b_synth) \
             and phase("synthw", gen_synth_w, n_synth, b_synth + 5) and phase("synthmom", gen_synth_mom, n_synth, b_synth + 8) \
-            and phase("options", gen_options_case, n_synth // 2, b_synth + 12):
+            and phase("options", gen_options_case, n_synth // 2, b_synth + 12) \
+            and phase("sibling", gen_sibling_case, n_synth // 4, b_synth + 16):
         phase("moments", gen_moments_case, n_mom, b_mom)
 
 
